@@ -36,6 +36,7 @@ Inductive op :=
 | OLNext (i : nat) (n : nat)                         (* up to n Next() calls on it *)
 | OLRel (i : nat)
 | OStat (h : handle) (prop : nat)   (* Stat(property): 0 disk.size 1 stats 2 iostats 3 async_flush 4 sync_flush 5 alivesnaps, else unknown *)
+| OBReplayTo (src dst : nat)        (* batch src .Replay(batch dst): dst receives src's operations *)
 | OInit (d : nat).                                     (* LazyFlushable.InitUnderlyingDb: produce and install the store, no flush *)
 
 Inductive obs :=
